@@ -20,6 +20,7 @@ func init() {
 func runC15(a *A) {
 	a.Rule("shape/partition-local-seq", 1, func() { a.ruleCepSeqPerPartition() })
 	a.Rule("flow/accepting-run-not-lost", 2, func() { a.ruleCepAcceptingRunKept() })
+	a.Rule("shape/in-place-filter", 2, func() { a.ruleInPlaceFilter("cep") })
 	a.Rule("keyenc/cep-partition", 1, func() { a.keyencRule("stream", "cepRunner", "partitionKey", keyencOpts{}) })
 	a.Rule("locks/guarded-by", 9, func() {
 		a.lockRules("cep", "Engine")
